@@ -10,6 +10,7 @@ static GLOBAL: engine::CountingAlloc = engine::CountingAlloc;
 
 #[macro_use]
 pub mod engine;
+pub mod generated;
 pub mod props;
 pub mod refs;
 pub mod transport;
